@@ -193,6 +193,10 @@ class FortranEngine:
         # Form lists of period information (avoid using `iter_periods()` in case
         # this is being over-ridden elsewhere)
 
+        # Error if there are no periods at all, as in `iter_periods()`
+        if len(self.span) == 0:
+            raise SolutionError('Object `span` is empty: No periods to solve')
+
         # Positions of the first and last periods, as in `iter_periods()`:
         # labels given by the caller are looked up in `span`; the defaults are
         # positions already
